@@ -253,6 +253,7 @@ def check(model, rep):
     rep.rule('R17.1', 'every integer index / constant slice inside a @jit kernel lies within the contracted extent')
     rep.rule('R17.2', 'explicitly sliced arguments at kernel call sites give the contract-tied extents the same value')
     ks = kernels(model)
+    callee_contracts = {k_.name: (list(k_.params), CONTRACTS[k_.name]) for k_ in ks if k_.name in CONTRACTS}
     n_int = n_sl = 0
     n_unres = 0
     for fi in sorted(ks, key=lambda f: f.key):
@@ -260,7 +261,7 @@ def check(model, rep):
         if contract is None:
             rep.unresolved_item('R17.1', fi.where, 'no shape contract recorded for kernel %s' % fi.name)
             continue
-        b = Bounds(fi.node, contract, RETURNS).run()
+        b = Bounds(fi.node, contract, RETURNS, callee_contracts=callee_contracts).run()
         n_int += b.n_int
         n_sl += b.n_slice
         seen = set()
